@@ -64,6 +64,8 @@ struct Spec {
 struct Slot {
     runs: AtomicU64,
     val: AtomicU64,
+    /// set by main once the thread's handle has been dropped
+    handle_gone: AtomicU64,
 }
 
 // ---- result types ------------------------------------------------------------------------
@@ -194,6 +196,24 @@ impl Val for core::result::Result<u8, u8> {
     }
 }
 
+/// A result whose destructor panics.
+struct PanicOnDrop(u64);
+
+impl Drop for PanicOnDrop {
+    fn drop(&mut self) {
+        panic!("the result's destructor panics");
+    }
+}
+
+impl Val for PanicOnDrop {
+    fn make(tag: u32) -> Self {
+        PanicOnDrop(vword(tag, 0))
+    }
+    fn vhash(&self) -> u64 {
+        vfold(vfold(VHASH_SEED, C_DROP_PANICS as u64), self.0)
+    }
+}
+
 #[repr(align(64))]
 struct A64 {
     a: u64,
@@ -268,6 +288,12 @@ fn body<T: Val>(s: Spec, slot: usize) -> T {
     // panicking closure leaves behind is the closure itself
     drop(scratch);
     slot.val.store(slot_value(s.tag), Ordering::SeqCst);
+    if s.class == C_DROP_PANICS {
+        // the handle goes first: the thread is the one that has to dispose of the result
+        while slot.handle_gone.load(Ordering::SeqCst) == 0 {
+            let _ = tiny_std::thread::sleep(Duration::from_millis(1));
+        }
+    }
     if s.panics {
         if s.panic_in_print {
             let nothing: Option<u32> = None;
@@ -290,6 +316,7 @@ enum Handle {
     OptU32(JoinHandle<Option<u32>>),
     Str(JoinHandle<String>),
     ResU8(JoinHandle<core::result::Result<u8, u8>>),
+    DropPanics(JoinHandle<PanicOnDrop>),
 }
 
 fn spawn_one<T: Val>(s: Spec, slot: usize) -> tiny_std::Result<JoinHandle<T>> {
@@ -308,6 +335,7 @@ fn spawn_class(s: Spec, slot: usize) -> tiny_std::Result<Handle> {
         C_OPT_U32 => Handle::OptU32(spawn_one(s, slot)?),
         C_STRING => Handle::Str(spawn_one(s, slot)?),
         C_RESULT_U8 => Handle::ResU8(spawn_one(s, slot)?),
+        C_DROP_PANICS => Handle::DropPanics(spawn_one(s, slot)?),
         _ => Handle::A4096(spawn_one(s, slot)?),
     })
 }
@@ -336,13 +364,15 @@ fn join_handle(h: Handle, tag: u32, slot: &Slot) {
         Handle::OptU32(h) => join_typed(h, tag, slot),
         Handle::Str(h) => join_typed(h, tag, slot),
         Handle::ResU8(h) => join_typed(h, tag, slot),
+        Handle::DropPanics(h) => join_typed(h, tag, slot),
     }
 }
 
-fn drop_handle(h: Handle, tag: u32) {
+fn drop_handle(h: Handle, tag: u32, slot: &Slot) {
     rec(R_DROPPING, tag, [0; 7]);
     drop(h);
     rec(R_DROPPED, tag, [0; 7]);
+    slot.handle_gone.store(1, Ordering::SeqCst);
 }
 
 // ---- scenario ------------------------------------------------------------------------------
@@ -403,6 +433,7 @@ fn run_batch(mode: u64, bi: usize, specs: &[Spec]) {
     let slots: *mut [Slot; MAX_THREADS_PER_BATCH] = Box::into_raw(Box::new(core::array::from_fn(|_| Slot {
         runs: AtomicU64::new(0),
         val: AtomicU64::new(0),
+        handle_gone: AtomicU64::new(0),
     })));
     let slot_ref = |i: usize| -> &'static Slot { unsafe { &(*slots)[i] } };
     let mut later: Vec<(usize, Handle)> = Vec::with_capacity(specs.len());
@@ -414,7 +445,7 @@ fn run_batch(mode: u64, bi: usize, specs: &[Spec]) {
                 rec(R_SPAWNED, s.tag, [1, 0, 0, 0, 0, 0, 0]);
                 match s.fate {
                     FATE_JOIN_NOW => join_handle(h, s.tag, slot_ref(i)),
-                    FATE_DROP_NOW => drop_handle(h, s.tag),
+                    FATE_DROP_NOW => drop_handle(h, s.tag, slot_ref(i)),
                     _ => later.push((i, h)),
                 }
             }
@@ -432,7 +463,7 @@ fn run_batch(mode: u64, bi: usize, specs: &[Spec]) {
         if s.fate == FATE_JOIN_LATER {
             join_handle(h, s.tag, slot_ref(i));
         } else {
-            drop_handle(h, s.tag);
+            drop_handle(h, s.tag, slot_ref(i));
         }
     }
     rec(R_QUIESCE, bi as u32, [0; 7]);
